@@ -21,13 +21,13 @@ ASSUME TLCSet(2, <<>>)
 
 \* the error code each request class must be answered with (ErrorCode values of src/constants.rs)
 Expect(c) ==
-    CASE c \in {"json_ok", "json_beve_ok", "json_utf8_ok", "typed_ok", "ctx_ok", "slice_ok", "sliceref_ok", "registry_read", "struct_read", "custom"} -> 0
+    CASE c \in {"json_ok", "json_beve_ok", "json_utf8_ok", "typed_ok", "ctx_ok", "slice_ok", "sliceref_ok", "registry_read", "struct_read", "registry2_read", "struct2_read", "custom"} -> 0
       [] c \in {"bad_version", "bad_version0", "bad_version255", "bad_version3"} -> 1     \* VersionMismatch: every version but 1
       [] c \in {"raw_query_format", "unknown_query_format", "non_utf8_query"} -> 3      \* InvalidQuery
       [] c \in {"json_rawfmt", "json_unknownfmt", "slice_json", "struct_rawfmt"} -> 4   \* InvalidBody
       [] c \in {"json_undecodable", "json_emptybody", "typed_shape", "slice_wrongtype", "sliceref_wrongtype",
                  "typed_trailing", "typed_trailing_utf8", "json_trailing"} -> 5      \* ParseError (a complete JSON value followed by more bytes is not a JSON body)
-      [] c \in {"unknown_path", "registry_missing"} -> 6                                \* MethodNotFound
+      [] c \in {"unknown_path", "registry_missing", "mount_sibling_missing"} -> 6                                \* MethodNotFound
       [] c = "handler_error" -> 4096                                                    \* the handler's own code
 \* the handler tag that must run exactly once ("" = no user handler runs: rejected before dispatch, or its body is never decoded)
 Invokes(c) ==
